@@ -292,6 +292,10 @@ def run(ctx):
     for a in BL.acqs.values():
         if a.cls == 'Element' and a.mode == 'W':
             C.check(all(o[0] == ('fresh',) for o in a.owns), 'C13-MUST-duplicate', 'write-lock-only-on-copy|%s' % '/'.join(own_str(o) for o in a.owns), 'duplicate write-locks an element that is not part of the new model', a.where)
+    # every copied identifiable element is findable: its name is made unique in the destination before it is linked there
+    C.rule('C13-MUST-unique', 'create_copied_sub_element_inner links the copy only after make_unique_item_name ran; the only path around the call is the not-identifiable edge')
+    import c04 as _c04
+    _c04.unique_before_link(C, P, 'C13-MUST-unique', ('ElementRaw::create_copied_sub_element_inner',))
     return C.finish('Structural clauses of copy faithfulness and independence on the MIR of deep_copy / create_copied_sub_element* / duplicate: provenance of every stored child, '
                     'by-value copies, lock modes per owner, field coverage against the ADT table, provenance of the membership handles. '
                     'Registration of the copy in both indexes is decided by C04-PAIR-index / C05-PAIR-origins. Does not decide textual equality of serialisations.')
